@@ -66,12 +66,13 @@ static void one_case(mmd_engine * e, unsigned i1, unsigned lead1, unsigned n1, b
 	block->len = pos;
 	unsigned inl_before = n1 + (two ? 1 : 0);
 	strip_line_tokens_from_block(e, block);
-	unsigned plain = 0; token * prev = NULL; bool linked = true; bool closed = true;
+	unsigned plain = 0; token * prev = NULL; bool linked = true; bool closed = true; bool inside = true;
 	token * c = block->child;
 	for (int k = 0; k < 10; k++) {
 		if (c) {
 			if (c->prev != prev) { linked = false; }
 			if (is_line_type(c->type) && !writer_has_arm(c->type)) { closed = false; }
+			if (c->start + c->len > pos || c->start > pos) { inside = false; }        /* pos: end of the last line = end of the block */
 			if (is_inl(c)) { plain++; }
 			if (c->child) { token * g = c->child; for (int j = 0; j < 5; j++) { if (g) { if (is_inl(g)) { plain++; } g = g->next; } } }
 			prev = c; c = c->next;
@@ -80,6 +81,7 @@ static void one_case(mmd_engine * e, unsigned i1, unsigned lead1, unsigned n1, b
 	ASSERT(c == NULL, "result chain has the expected bounded length");
 	ASSERT(closed, "postcondition C02: no child of the block keeps a LINE_* type that the writers have no arm for");
 	ASSERT(linked, "postcondition: children of the block are consistently linked");
+	ASSERT(inside, "postcondition C15: every child of the block (markers created by the pass included) ends inside the block it came from");
 	ASSERT(plain == inl_before, "postcondition C02: every inline token that was inside a line is still in the block (nothing dropped)");
 }
 
